@@ -1672,7 +1672,9 @@ open_common(kdump_ctx_t *ctx)
 			if (ret != KDUMP_OK)
 				return set_error(ctx, ret,
 						 "Cannot process Xen notes");
-		} else if (!strcmp(name, ".xen_prstatus")) {
+		} else if (!strcmp(name, ".xen_prstatus") &&
+			   ctx->shared->arch_ops &&
+			   ctx->shared->arch_ops->process_xen_prstatus) {
 			ret = flatmap_get_chunk(ctx->shared->flatmap, &fch,
 						sect->size, 0,
 						sect->file_offset);
